@@ -374,3 +374,83 @@ Proof.
   - intros x Hx. apply Hdin in Hx. unfold kMinD, kMaxD in Hx. destruct (d =? 0); lia.
   - intros x Hx. apply Hkin in Hx. unfold kMinK, kMaxK in Hx. destruct (k =? 0); lia.
 Qed.
+
+(* ------------------------------------------------------------------ optimiser entry *)
+Lemma grid_cover_jobs_checked g m sp d k :
+  In (d, k) (grid_cover_jobs g m sp) -> cover_check k d m sp = true.
+Proof.
+  unfold grid_cover_jobs. intros H. apply in_flat_map in H. destruct H as (d' & _ & H).
+  apply in_flat_map in H. destruct H as (k' & _ & H).
+  destruct (cover_check k' d' m sp) eqn:E; [| destruct H].
+  destruct H as [H | []]. injection H as <- <-. exact E.
+Qed.
+
+Lemma grid_fastcover_jobs_checked g m f accel sp d k :
+  In (d, k) (grid_fastcover_jobs g m f accel sp) -> fastcover_check k d m f accel sp = true.
+Proof.
+  unfold grid_fastcover_jobs. intros H. apply in_flat_map in H. destruct H as (d' & _ & H).
+  apply in_flat_map in H. destruct H as (k' & _ & H).
+  destruct (fastcover_check k' d' m f accel sp) eqn:E; [| destruct H].
+  destruct H as [H | []]. injection H as <- <-. exact E.
+Qed.
+
+(* every candidate an optimiser starts has passed the parameter check with the resolved values; the model's
+   loops always finish (no EntryHang) *)
+Lemma opt_entry_cover_checked d k steps sp nb capacity :
+  d < U32MOD -> k < U32MOD -> steps < U32MOD ->
+  opt_entry_cover 2100 d k steps sp nb capacity <> EntryHang /\
+  forall steps' sp' f' accel' jobs,
+    opt_entry_cover 2100 d k steps sp nb capacity = EntryJobs steps' sp' f' accel' jobs ->
+    1 <= nb /\ t_ZDICT_DICTSIZE_MIN <= capacity /\ sp_valid sp' /\
+    forall dj kj, In (dj, kj) jobs -> 0 < dj /\ dj <= kj /\ kj <= capacity.
+Proof.
+  intros Hd Hk Hs. unfold opt_entry_cover.
+  destruct (opt_grid_terminates d k steps Hd Hk Hs) as (r & Hr & _). rewrite Hr.
+  set (sp0 := if sp_pos sp then sp else sp_dflt t_COVER_DEFAULT_SPLITPOINT_num20).
+  split.
+  - destruct (sp_ok sp0); cbn [negb]; [| discriminate].
+    destruct r as [g |]; [| discriminate].
+    destruct (nb =? 0); [discriminate |]. destruct (capacity <? t_ZDICT_DICTSIZE_MIN); discriminate.
+  - intros steps' sp' f' accel' jobs.
+    destruct (sp_ok sp0) eqn:Eok; cbn [negb]; [| discriminate].
+    destruct r as [g |]; [| discriminate].
+    destruct (N.eqb_spec nb 0); [discriminate |].
+    destruct (N.ltb_spec capacity t_ZDICT_DICTSIZE_MIN); [discriminate |].
+    intros Heq. injection Heq as <- <- <- <- <-.
+    split; [lia |]. split; [assumption |]. split; [apply sp_ok_iff; exact Eok |].
+    intros dj kj Hin. apply grid_cover_jobs_checked in Hin. apply cover_check_iff in Hin. tauto.
+Qed.
+
+Lemma opt_entry_fast_checked d k steps sp f accel nb capacity :
+  d < U32MOD -> k < U32MOD -> steps < U32MOD ->
+  opt_entry_fast 2100 d k steps sp f accel nb capacity <> EntryHang /\
+  forall steps' sp' f' accel' jobs,
+    opt_entry_fast 2100 d k steps sp f accel nb capacity = EntryJobs steps' sp' f' accel' jobs ->
+    1 <= nb /\ t_ZDICT_DICTSIZE_MIN <= capacity /\ sp_valid sp' /\
+    1 <= f' <= t_FASTCOVER_MAX_F /\ 1 <= accel' <= t_FASTCOVER_MAX_ACCEL /\
+    forall dj kj, In (dj, kj) jobs -> (dj = 6 \/ dj = 8) /\ dj <= kj /\ kj <= capacity.
+Proof.
+  intros Hd Hk Hs. unfold opt_entry_fast.
+  destruct (opt_grid_terminates d k steps Hd Hk Hs) as (r & Hr & _). rewrite Hr.
+  set (sp0 := if sp_pos sp then sp else sp_dflt t_FASTCOVER_DEFAULT_SPLITPOINT_num20).
+  set (f0 := if f =? 0 then t_DEFAULT_F else f). set (a0 := if accel =? 0 then t_DEFAULT_ACCEL else accel).
+  split.
+  - destruct (sp_ok sp0); cbn [negb]; [| discriminate].
+    destruct ((a0 =? 0) || (t_FASTCOVER_MAX_ACCEL <? a0)); [discriminate |].
+    destruct ((f0 =? 0) || (t_FASTCOVER_MAX_F <? f0)); [discriminate |].
+    destruct r as [g |]; [| discriminate].
+    destruct (nb =? 0); [discriminate |]. destruct (capacity <? t_ZDICT_DICTSIZE_MIN); discriminate.
+  - intros steps' sp' f' accel' jobs.
+    destruct (sp_ok sp0) eqn:Eok; cbn [negb]; [| discriminate].
+    destruct (N.eqb_spec a0 0); cbn [orb]; [discriminate |].
+    destruct (N.ltb_spec t_FASTCOVER_MAX_ACCEL a0); [discriminate |].
+    destruct (N.eqb_spec f0 0); cbn [orb]; [discriminate |].
+    destruct (N.ltb_spec t_FASTCOVER_MAX_F f0); [discriminate |].
+    destruct r as [g |]; [| discriminate].
+    destruct (N.eqb_spec nb 0); [discriminate |].
+    destruct (N.ltb_spec capacity t_ZDICT_DICTSIZE_MIN); [discriminate |].
+    intros Heq. injection Heq as <- <- <- <- <-.
+    split; [lia |]. split; [assumption |]. split; [apply sp_ok_iff; exact Eok |].
+    split; [lia |]. split; [lia |].
+    intros dj kj Hin. apply grid_fastcover_jobs_checked in Hin. apply fastcover_check_iff in Hin. tauto.
+Qed.
